@@ -22,7 +22,7 @@ ASSUMPTIONS = [
     "an analysis argument called 'indicator' is passed through 'args' in the dict form (it cannot sit next to the dict's own 'indicator' key)",
     "a library call that does not return within 5 s is reported as diverged (watchdog)",
 ]
-PARTIAL = ""
+PARTIAL = 'proved: OHLCV never changed by calculation; member without own timeframe = standalone twin under any program (readings, candles, columns) given disjoint names (TreeOK); members with their own timeframe vs a twin fed the raw stream, and the dict/settings forms: members_FULL, correspondence + search'
 
 
 def oracle(ctx):
